@@ -37,6 +37,7 @@ GEN = os.path.join(ROOT, "gen")
 UTF8 = {"JDK_JAVA_OPTIONS": "-Dfile.encoding=UTF-8 -Dstdout.encoding=UTF-8 -Dsun.stdout.encoding=UTF-8"}
 SENSITIVITY = [
     ("MC_JsonMap_dev_null.cfg", "NullTruncatesArray", "MacroOk"),
+    ("MC_JsonMap_dev_doc.cfg", "DocAttrPanics", "Compiles"),
     ("MC_JsonMap_dev_p53.cfg", "IntBeyond2p53", "ShapeOk"),
     ("MC_JsonMap_dev_p53rt.cfg", "IntBeyond2p53", "RoundTrip"),
     ("MC_JsonMap_bug_objnull.cfg", "ObjNullDropsRest", "MacroOk"),
@@ -112,13 +113,21 @@ def rust_type(ty):
 def rust_decl(d):
     n, fs = d["name"], d["fields"]
     lines = []
+
+    def attrs(f, rename):
+        out = []
+        if f.get("doc"):
+            out.append("    /// documented member (an attribute that is not `rename`)")
+        if rename and f["hasRen"]:
+            out.append("    #[rename = %s]" % rust_str(f["ren"]))
+        return out
+
     if d["kind"] == "named":
         derive = "FromJson, IntoJson, Debug, PartialEq, Clone" if d["via"] == "derive" else "Debug, PartialEq, Clone"
         lines.append("#[derive(%s)]" % derive)
         lines.append("pub struct %s {" % n)
         for f in fs:
-            if d["via"] == "derive" and f["hasRen"]:
-                lines.append("    #[rename = %s]" % rust_str(f["ren"]))
+            lines += attrs(f, d["via"] == "derive")
             lines.append("    pub %s: %s," % (f["id"], rust_type(f["ty"])))
         lines.append("}")
         if d["via"] == "map":
@@ -128,13 +137,16 @@ def rust_decl(d):
             lines.append("}")
     elif d["kind"] == "tuple":
         lines.append("#[derive(FromJson, IntoJson, Debug, PartialEq, Clone)]")
-        lines.append("pub struct %s(%s);" % (n, ", ".join("pub " + rust_type(f["ty"]) for f in fs)))
+        lines.append("pub struct %s(" % n)
+        for f in fs:
+            lines += attrs(f, False)
+            lines.append("    pub %s," % rust_type(f["ty"]))
+        lines.append(");")
     else:
         lines.append("#[derive(FromJson, IntoJson, Debug, PartialEq, Clone)]")
         lines.append("pub enum %s {" % n)
         for f in fs:
-            if f["hasRen"]:
-                lines.append("    #[rename = %s]" % rust_str(f["ren"]))
+            lines += attrs(f, True)
             lines.append("    %s," % f["id"])
         lines.append("}")
     return "\n".join(lines)
@@ -312,6 +324,14 @@ def build_and_run(crate, ctx, label):
         if r.returncode != 0:
             raise vlib.ToolError("generated program failed rc=%s: %s" % (r.returncode, r.stderr[-1500:]))
         res = {}
+        failed = {}                                 # vector id -> rustc message (its module / literal did not compile)
+        for ce in compile_errors:
+            if "vector" in ce:
+                failed[ce["vector"]] = ce["message"]
+            else:
+                for vid, m, _ in crate.vecs:
+                    if m == ce["module"]:
+                        failed[vid] = ce["message"]
         for ln in r.stdout.split("\n"):           # not splitlines(): U+2028 etc. occur inside the strings under test
             if ln.startswith("{"):
                 x = json.loads(ln)
@@ -322,6 +342,10 @@ def build_and_run(crate, ctx, label):
             raise vlib.ToolError("generated program printed %d result lines for %d vectors" % (len(res), n))
         ctx.add_part("generated crate (%s)" % label, modules=len(crate.mods), vectors=n, build_s=round(build_s, 1),
                      compile_errors=len(compile_errors), rounds=attempt + 1)
+        for x in res.values():
+            x["compiled"] = True
+        for vid, msg in failed.items():
+            res[vid] = {"id": vid, "compiled": False, "rustc": msg}
         return res, compile_errors
     finally:
         shutil.rmtree(os.path.join(GEN, "src", "g"), ignore_errors=True)
@@ -338,12 +362,16 @@ def build_and_run(crate, ctx, label):
 # ------------------------------------------------------------------------------------------------------
 
 def map_agrees(r, o):
+    if r["compiled"] != o["c"] or not r["compiled"]:
+        return r["compiled"] == o["c"]
     return (r.get("panic") == "" and r.get("obs") == o["obs"] and r.get("rt") == o["rt"] and r.get("rtt") == o["rt"]
             and r.get("pe") == o["pe"] and r.get("fe") == o["fe"] and r.get("sp") is True)
 
 
 def lit_agrees(r, o):
-    return r.get("panic") == "" and o["ok"] and r.get("obs") == o["obs"] and r.get("eq") == o["eq"]
+    if r["compiled"] != o["ok"] or not r["compiled"]:
+        return r["compiled"] == o["ok"]
+    return r.get("panic") == "" and r.get("obs") == o["obs"] and r.get("eq") == o["eq"]
 
 
 def judge(r, exp, alt, attr, agrees):
@@ -422,7 +450,7 @@ class RandomInputs:
                     has, ren = True, (fid if r.random() < 0.3 else self.string(self.cat["renames"]))
                 elif r.random() < 0.5:
                     has, ren = True, self.string(self.cat["renames"])
-            fields.append({"id": fid, "hasRen": has, "ren": ren, "ty": ty})
+            fields.append({"id": fid, "hasRen": has, "ren": ren, "doc": r.random() < 0.25, "ty": ty})
         # precondition WellFormed: members of one type travel under distinct names
         ks = [f["ren"] if f["hasRen"] else f["id"] for f in fields]
         if len(set(ks)) != len(ks):
@@ -611,20 +639,11 @@ def run(tier, replay):
 
     # ---- 4. compile against /repo and run ----------------------------------------------------------
     res, compile_errors = build_and_run(crate, ctx, "enumerated + random")
-    for ce in compile_errors:
-        line = None
-        if ce.get("vector") in enum_lit:
-            line = enum_lit[ce["vector"]]
-        ce["tlc_line"] = line
-        ctx.violation("generated code for a supported shape does not compile: %s (%s)" % (ce["message"], ce.get("vector") or ce.get("what")), ce)
-
     # ---- 5. enumerated vectors against TLC's expectation --------------------------------------------
     n_eval, nontrivial, mism, tally = 0, set(), 0, {}
     findings = []                        # (what, replay object, deviation or None); reported shortest first
     for vid, (line, vec) in enum_map.items():
-        r = res.get(vid)
-        if r is None:
-            continue                       # its module did not compile (reported above)
+        r = res[vid]
         n_eval += 1
         if tree_size(vec["doc"]) >= 3:
             nontrivial.add(json.dumps([line["prog"][-1], vec["v"]], sort_keys=True))
@@ -639,9 +658,7 @@ def run(tier, replay):
             findings.append((what, {"kind": "map-vector", "id": vid, "expected": vec["exp"], "observed": r,
                                     "tlc_line": dict(line, vecs=[vec])}, verdict))
     for vid, line in enum_lit.items():
-        r = res.get(vid)
-        if r is None:
-            continue
+        r = res[vid]
         n_eval += 1
         if line["ast"]["items"]:
             nontrivial.add(line["src"])
@@ -668,10 +685,10 @@ def run(tier, replay):
     if rnd_inputs:
         recs = []
         for x in rnd_inputs:
-            r = res.get(x["id"])
-            if r is None:
-                continue
+            r = res[x["id"]]
             rec = {k: v for k, v in x.items() if k != "pidx"}
+            rec["compiled"] = r["compiled"]
+            rec["rustc"] = r.get("rustc", "")
             rec["panic"] = r.get("panic", "")
             rec["obs"] = r.get("obs", {"t": "null", "s": "", "k": [], "c": []})
             for k in (("rt", "rtt", "pe", "fe", "sp") if x["kind"] == "map" else ("eq",)):
